@@ -201,8 +201,13 @@ def schedules(ctx):
     for (pre, post), seqs in table.items():
         times = {b for s, _ in seqs for a, b, c in s}
         uncond = times if uncond is None else (uncond & times)
-    ctx.require(uncond is not None and {(14, 30), (21, 0)} <= uncond, 'C13.S4', 'the schedule times 14:30 and 21:00 are events the clock emits unconditionally', None,
-                sorted(uncond or []), key='C13.S4|times')
+    seen_any = any(s for seqs in table.values() for s, _ in seqs)
+    if not seen_any:
+        # the clock generates its events in a way the event table does not read (streams zipped per event type, ...): not claimed either way
+        ctx.undecided('C13.S4', 'the schedule times 14:30 and 21:00 are events the clock emits unconditionally', None, 'no event of the clock was recognised')
+    else:
+        ctx.require(uncond is not None and {(14, 30), (21, 0)} <= uncond, 'C13.S4', 'the schedule times 14:30 and 21:00 are events the clock emits unconditionally', None,
+                    sorted(uncond or []), key='C13.S4|times')
     # the clock enumerates the business days of the same, unmodified range
     ps = summarise(ctx, 'DailyBusinessDaySimulationEngine.__init__', policy=default_policy)
     for p in normal(ps):
@@ -233,8 +238,18 @@ def schedules(ctx):
         cls, args = rows[name]
         ok = len(ps) == 1 and ps[0].outcome == 'return'
         if ok:
-            v = ps[0].value
+            def plain(t):
+                # getattr(self, 'field', default) reads self.field; list(schedule) is the same instants in the same order
+                def f(z):
+                    if z[0] == 'call' and z[1] == ('ext', 'builtins.getattr') and len(z[2]) == 3 and z[2][1][0] == 'str' and not z[3]:
+                        return ('attr', z[2][0], z[2][1][1])
+                    return None
+                t = T.replace(t, f)
+                while t[0] == 'call' and t[1] in (('ext', 'LIST'), ('ext', 'TUPLE')) and len(t[2]) == 1 and not t[3]:
+                    t = t[2][0]
+                return t
+            v = plain(ps[0].value)
             cs = [e for e in ps[0].flat_events() if e.kind == 'call' and e.callee == [cls + '.__init__']]
-            ok = len(cs) == 1 and tuple(cs[0].args.values()) == args and v == ('attr', ('call', ('fn', cls), args, ()), 'rebalances')
+            ok = len(cs) == 1 and tuple(plain(a_) for a_ in cs[0].args.values()) == args and v == ('attr', ('call', ('fn', cls), args, ()), 'rebalances')
         ctx.require(ok, 'C13.S4', "rebalance='%s' builds %s over the session's own range and uses its schedule" % (name, cls), fn.site(),
                     [fmt(p.value)[:100] if p.value else p.outcome for p in ps], key='C13.S4|row|%s' % name)
